@@ -45,7 +45,7 @@ CHECKS = {
   note="Trusted: ThreadSanitizer, the instrumenter's yield placement (segments inside dependencies are atomic in the simulation, though their accesses are still seen by the race detector), the fingerprint walker. Mutators are excluded by an explicit, justified list."),
 }
 
-BUILT = ["C04", "C13", "C19"]   # checks that exist in this commit
+BUILT = ["C04", "C12", "C13", "C19"]   # checks that exist in this commit
 
 PENDING_REASON = "claimed in DESIGN.md (%s) but its check is not built yet in this commit; listed here only until it is"
 
